@@ -73,6 +73,129 @@ Proof.
   replace (c =? 13) with false by (symmetry; apply N.eqb_neq; exact D). reflexivity.
 Qed.
 
+(* ---- the line loop over a concatenation ---- *)
+Lemma scan_from_shorter : forall l lc acc line rest,
+  scan_from lc acc l = SLine line rest -> (length rest < length l)%nat.
+Proof.
+  induction l as [|c l IH]; intros lc acc line rest H; cbn [scan_from] in H; [discriminate|].
+  destruct (c =? 10); [inversion H; subst; cbn; lia|].
+  destruct (((c <? 32) && negb (c =? 13)) || (lc =? 13)); [discriminate|].
+  specialize (IH _ _ _ _ H). cbn [length]. lia.
+Qed.
+
+Section LoopProofs.
+  Variable handle : hconn -> list byte -> hconn * N.
+  Variable on_end : hconn -> hconn.
+  Hypothesis handle_final : forall h l, snd (handle h l) <> NNG_EAGAIN.
+  Notation loop := (parse_loop handle on_end).
+
+  Lemma loop_fuel : forall f1 f2 h buf, (length buf < f1)%nat -> (length buf < f2)%nat ->
+    loop f1 h buf = loop f2 h buf.
+  Proof.
+    induction f1 as [|f1 IH]; intros f2 h buf H1 H2; [lia|]. destruct f2 as [|f2]; [lia|].
+    cbn [parse_loop].
+    destruct (http_scan_line buf) as [| |line rest] eqn:E; try reflexivity.
+    destruct line as [|x line]; [reflexivity|].
+    destruct (handle h (x :: line)) as [h1 rv]. destruct (rv =? 0); [|reflexivity].
+    pose proof (scan_from_shorter _ _ _ _ _ E). apply IH; lia.
+  Qed.
+
+  Lemma loop_app : forall f h buf more, (length buf < f)%nat ->
+    loop (S (length (buf ++ more))) h (buf ++ more) =
+      let '(h1, rv, r) := loop f h buf in
+      if rv =? NNG_EAGAIN then loop (S (length (r ++ more))) h1 (r ++ more) else (h1, rv, r ++ more).
+  Proof.
+    induction f as [|f IH]; intros h buf more Hf; [lia|].
+    cbn [parse_loop]. rewrite scan_line_split.
+    destruct (http_scan_line buf) as [| |line rest] eqn:E.
+    - (* incomplete line: the whole buffer is scanned again *)
+      cbn [N.eqb Pos.eqb NNG_EAGAIN]. cbn [parse_loop]. reflexivity.
+    - reflexivity.
+    - destruct line as [|x line]; [reflexivity|].
+      pose proof (handle_final h (x :: line)) as HF.
+      destruct (handle h (x :: line)) as [h1 rv]. cbn [snd] in HF.
+      destruct (rv =? 0) eqn:Z.
+      + pose proof (scan_from_shorter _ _ _ _ _ E) as L.
+        rewrite (loop_fuel (length (buf ++ more)) (S (length (rest ++ more))) h1 (rest ++ more)).
+        * apply IH. lia.
+        * rewrite !app_length. lia.
+        * lia.
+      + replace (rv =? NNG_EAGAIN) with false by (symmetry; apply N.eqb_neq; exact HF). reflexivity.
+  Qed.
+End LoopProofs.
+
+Lemma parse_header_final isreq h l : snd (parse_header isreq h l) <> NNG_EAGAIN.
+Proof. unfold parse_header. destruct (split_at 58 l) as [[k v]|]; cbn; discriminate. Qed.
+
+Lemma handle_req_final keep h l : snd (handle_req keep h l) <> NNG_EAGAIN.
+Proof.
+  unfold handle_req. destruct (h_parsed h); [|cbn; discriminate].
+  pose proof (parse_header_final true h l) as P. destruct (parse_header true h l) as [h1 rv]. cbn [snd] in *.
+  destruct keep; [exact P|discriminate].
+Qed.
+
+Lemma res_parse_line_final strict h l : snd (res_parse_line strict h l) <> NNG_EAGAIN.
+Proof.
+  unfold res_parse_line. destruct (split_at 32 l) as [[v r]|]; [|cbn; discriminate].
+  destruct (split_at 32 r) as [[c re]|]; [|cbn; discriminate].
+  destruct (status_code strict c); [|cbn; discriminate].
+  destruct (version_ok v); cbn; discriminate.
+Qed.
+
+Lemma handle_res_final strict h l : snd (handle_res strict h l) <> NNG_EAGAIN.
+Proof.
+  unfold handle_res. destruct (h_parsed h); [apply parse_header_final|].
+  pose proof (res_parse_line_final strict h l) as P. destruct (res_parse_line strict h l) as [h2 rv2].
+  cbn [snd] in *. exact P.
+Qed.
+
+Lemma head_parse_app keep strict isreq h buf more :
+  head_parse keep strict isreq h (buf ++ more) =
+    let '(h1, rv, r) := head_parse keep strict isreq h buf in
+    if rv =? NNG_EAGAIN then head_parse keep strict isreq h1 (r ++ more) else (h1, rv, r ++ more).
+Proof.
+  unfold head_parse, req_parse, res_parse. destruct isreq.
+  - apply loop_app; [apply handle_req_final|lia].
+  - apply loop_app; [apply handle_res_final|lia].
+Qed.
+
+(* restartability of the head parser as a stream decoder (DESIGN appendix A.3) *)
+Lemma http_feed_app keep strict isreq st a b :
+  http_feed keep strict isreq st (a ++ b) =
+    let '(s1, e1) := http_feed keep strict isreq st a in
+    let '(s2, e2) := http_feed keep strict isreq s1 b in (s2, e1 ++ e2).
+Proof.
+  unfold http_feed at 1 2. destruct (hf_done st) eqn:D.
+  - unfold http_feed. cbn [hf_done hf_conn hf_buf]. rewrite app_assoc. reflexivity.
+  - rewrite app_assoc, head_parse_app.
+    destruct (head_parse keep strict isreq (hf_conn st) (hf_buf st ++ a)) as [[h1 rv] r].
+    destruct (rv =? NNG_EAGAIN) eqn:E.
+    + unfold http_feed. cbn [hf_done hf_conn hf_buf].
+      destruct (head_parse keep strict isreq h1 (r ++ b)) as [[h2 rv2] r2].
+      rewrite ?E. destruct (rv2 =? NNG_EAGAIN); reflexivity.
+    + unfold http_feed. cbn [hf_done hf_conn hf_buf]. rewrite ?E, app_nil_r. reflexivity.
+Qed.
+
+Fixpoint http_feed_all keep strict isreq (st : hfeed) (pieces : list (list byte)) : hfeed * list hevent :=
+  match pieces with
+  | [] => (st, [])
+  | p :: rest => let '(s1, e1) := http_feed keep strict isreq st p in
+                 let '(s2, e2) := http_feed_all keep strict isreq s1 rest in (s2, e1 ++ e2)
+  end.
+
+Lemma http_feed_all_concat keep strict isreq : forall rest p st,
+  http_feed_all keep strict isreq st (p :: rest) = http_feed keep strict isreq st (concat (p :: rest)).
+Proof.
+  induction rest as [|q rest IH]; intros p st.
+  - cbn [http_feed_all concat]. rewrite app_nil_r.
+    destruct (http_feed keep strict isreq st p) as [s1 e1]. rewrite app_nil_r. reflexivity.
+  - cbn [concat]. rewrite http_feed_app.
+    change (http_feed_all keep strict isreq st (p :: q :: rest)) with
+      (let '(s1, e1) := http_feed keep strict isreq st p in
+       let '(s2, e2) := http_feed_all keep strict isreq s1 (q :: rest) in (s2, e1 ++ e2)).
+    destruct (http_feed keep strict isreq st p) as [s1 e1]. rewrite IH. cbn [concat]. reflexivity.
+Qed.
+
 (* ---- malformed start lines ---- *)
 Lemma split_at_none d l : ~ In d l -> split_at d l = None.
 Proof.
@@ -93,67 +216,115 @@ Qed.
 
 (* fewer than two spaces: 400, nothing else changes *)
 Lemma req_line_no_space h line : get_status h < 400 -> ~ In 32 line ->
-  req_parse_line h line = (set_code h 400 None, false).
+  req_parse_line h line = set_code h 400 None.
 Proof.
   intros S H. unfold req_parse_line.
   replace (400 <=? get_status h) with false by (symmetry; apply N.leb_gt; exact S).
   rewrite split_at_none by exact H. reflexivity.
 Qed.
 
+Lemma split_at_app d a b : ~ In d a -> split_at d (a ++ d :: b) = Some (a, b).
+Proof.
+  induction a as [|c a IH]; intros Ha; cbn [app split_at].
+  - rewrite N.eqb_refl. reflexivity.
+  - destruct (c =? d) eqn:E; [apply N.eqb_eq in E; subst; exfalso; apply Ha; left; reflexivity|].
+    rewrite IH; [reflexivity|]. intros X. apply Ha. right. exact X.
+Qed.
+
 Lemma req_line_one_space h a b : get_status h < 400 -> ~ In 32 a -> ~ In 32 b ->
-  req_parse_line h (a ++ 32 :: b) = (set_code h 400 None, false).
+  req_parse_line h (a ++ 32 :: b) = set_code h 400 None.
 Proof.
   intros S Ha Hb. unfold req_parse_line.
   replace (400 <=? get_status h) with false by (symmetry; apply N.leb_gt; exact S).
-  assert (E: split_at 32 (a ++ 32 :: b) = Some (a, b)).
-  { clear S Hb. induction a as [|c a IH]; cbn [app split_at].
-    - reflexivity.
-    - destruct (c =? 32) eqn:E; [apply N.eqb_eq in E; subst; exfalso; apply Ha; left; reflexivity|].
-      rewrite IH; [reflexivity|]. intros X. apply Ha. right. exact X. }
-  rewrite E, split_at_none by exact Hb. reflexivity.
+  rewrite split_at_app by exact Ha. rewrite split_at_none by exact Hb. reflexivity.
 Qed.
 
 (* unsupported version with a URI of the modelled domain: 505 *)
-Lemma req_line_bad_version h m u v rest :
-  get_status h < 400 -> split_at 32 (m ++ 32 :: rest) = Some (m, rest) -> split_at 32 rest = Some (u, v) ->
+Lemma req_line_bad_version h m u v :
+  get_status h < 400 -> ~ In 32 m -> ~ In 32 u ->
   canon_simple u = CanonOk u -> version_ok v = false ->
-  req_parse_line h (m ++ 32 :: rest) = (set_code h 505 None, false).
+  req_parse_line h (m ++ 32 :: u ++ 32 :: v) = set_code h 505 None.
 Proof.
-  intros S E1 E2 C V. unfold req_parse_line.
+  intros S Hm Hu C V. unfold req_parse_line.
   replace (400 <=? get_status h) with false by (symmetry; apply N.leb_gt; exact S).
-  rewrite E1, E2, C, V. reflexivity.
+  rewrite split_at_app by exact Hm. rewrite split_at_app by exact Hu. rewrite C, V. reflexivity.
 Qed.
 
-(* status line: without two spaces, or with a code outside 100..999: EPROTO and no change *)
-Lemma res_line_no_space h line : ~ In 32 line -> res_parse_line h line = (h, NNG_EPROTO).
+(* a failed request line is never delivered as a valid request: the status stays >= 400 through the headers *)
+Lemma add_header_code isreq h k v : h_code (add_header isreq h k v) = h_code h.
+Proof. unfold add_header. repeat match goal with |- context [if ?c then _ else _] => destruct c end; reflexivity. Qed.
+Lemma parse_header_code isreq h l : h_code (fst (parse_header isreq h l)) = h_code h.
+Proof. unfold parse_header. destruct (split_at 58 l) as [[k v]|]; cbn [fst]; [apply add_header_code|reflexivity]. Qed.
+
+(* status line: without two spaces, or with a bad code: EPROTO and no change *)
+Lemma res_line_no_space strict h line : ~ In 32 line -> res_parse_line strict h line = (h, NNG_EPROTO).
 Proof. intros H. unfold res_parse_line. rewrite split_at_none by exact H. reflexivity. Qed.
 
-Lemma res_line_bad_code h v c r line :
-  split_at 32 line = Some (v, c ++ 32 :: r) -> split_at 32 (c ++ 32 :: r) = Some (c, r) ->
-  (atoi32 c <? 100) || (999 <? atoi32 c) = true -> res_parse_line h line = (h, NNG_EPROTO).
-Proof. intros E1 E2 A. unfold res_parse_line. rewrite E1, E2, A. reflexivity. Qed.
+Lemma res_line_bad_code strict h v c r : ~ In 32 v -> ~ In 32 c ->
+  status_code strict c = None -> res_parse_line strict h (v ++ 32 :: c ++ 32 :: r) = (h, NNG_EPROTO).
+Proof.
+  intros Hv Hc A. unfold res_parse_line. rewrite split_at_app by exact Hv. rewrite split_at_app by exact Hc.
+  rewrite A. reflexivity.
+Qed.
+
+(* the repaired text: an accepted status line is  version SP 3DIGIT SP reason, first digit 1-9 *)
+Lemma res_line_strict_shape h line h' : res_parse_line true h line = (h', 0) ->
+  exists v a b c reason, line = v ++ 32 :: [a; b; c] ++ 32 :: reason /\ version_ok v = true /\
+    49 <= a <= 57 /\ 48 <= b <= 57 /\ 48 <= c <= 57 /\
+    h_code h' = (a - 48) * 100 + (b - 48) * 10 + (c - 48) /\ 100 <= h_code h' <= 999.
+Proof.
+  unfold res_parse_line. destruct (split_at 32 line) as [[v r1]|] eqn:E1; [|discriminate].
+  destruct (split_at 32 r1) as [[cs reason]|] eqn:E2; [|discriminate].
+  destruct (status_code true cs) as [st|] eqn:SC; [|discriminate].
+  destruct (version_ok v) eqn:V; [|discriminate].
+  intros H. inversion H; subst h'; clear H. cbn [h_code set_code].
+  unfold status_code in SC. destruct cs as [|a [|b [|c [|d cs]]]]; try discriminate.
+  destruct ((49 <=? a) && (a <=? 57) && is_digit b && is_digit c) eqn:G; [|discriminate].
+  inversion SC; subst st; clear SC.
+  apply andb_true_iff in G. destruct G as [G Gc]. apply andb_true_iff in G. destruct G as [G Gb].
+  apply andb_true_iff in G. destruct G as [Ga1 Ga2].
+  unfold is_digit in Gb, Gc. apply andb_true_iff in Gb, Gc. destruct Gb as [Gb1 Gb2]. destruct Gc as [Gc1 Gc2].
+  apply N.leb_le in Ga1, Ga2, Gb1, Gb2, Gc1, Gc2.
+  destruct (split_at_some _ _ _ _ E1) as [-> _]. destruct (split_at_some _ _ _ _ E2) as [-> _].
+  exists v, a, b, c, reason. repeat split; auto; lia.
+Qed.
 
 (* a header line without a colon *)
 Lemma header_no_colon isreq h line : ~ In 58 line -> parse_header isreq h line = (h, NNG_EPROTO).
 Proof. intros H. unfold parse_header. rewrite split_at_none by exact H. reflexivity. Qed.
 
-(* ... which a response parser reports and a request parser drops (the code as it is) *)
+(* the repaired request parser: such a line ends the parse with EPROTO, wherever it stands *)
+Lemma req_nocolon_stops f h buf line rest :
+  http_scan_line buf = SLine line rest -> line <> [] -> h_parsed h = true -> ~ In 58 line ->
+  parse_loop (handle_req true) (fun h => set_parsed h false) (S f) h buf = (set_parsed h false, NNG_EPROTO, rest).
+Proof.
+  intros E Hl Hp Hc. cbn [parse_loop]. rewrite E. destruct line as [|x line]; [congruence|].
+  unfold handle_req. rewrite Hp, header_no_colon by exact Hc. reflexivity.
+Qed.
+
+(* the text pinned at e917035 dropped it silently *)
 Definition req_nocolon_witness : list byte :=
   [71;69;84;32;47;32;72;84;84;80;47;49;46;49;13;10; 66;97;100;13;10; 13;10].   (* "GET / HTTP/1.1\r\nBad\r\n\r\n" *)
-Lemma req_header_nocolon_accepted :
-  let '(h, rv, used, unk) := req_parse hconn_init req_nocolon_witness in
-  rv = 0 /\ get_status h = 200 /\ h_hdrs h = [] /\ used = length req_nocolon_witness.
+Lemma req_header_nocolon_pinned :
+  let '(h, rv, rest) := req_parse false hconn_init req_nocolon_witness in
+  rv = 0 /\ get_status h = 200 /\ h_hdrs h = [] /\ rest = [].
+Proof. vm_compute. repeat split. Qed.
+Lemma req_header_nocolon_fixed :
+  let '(h, rv, rest) := req_parse true hconn_init req_nocolon_witness in rv = NNG_EPROTO /\ rest = [13; 10].
 Proof. vm_compute. repeat split. Qed.
 
 Definition res_nocolon_witness : list byte :=
   [72;84;84;80;47;49;46;49;32;50;48;48;32;79;75;13;10; 66;97;100;13;10; 13;10].  (* "HTTP/1.1 200 OK\r\nBad\r\n\r\n" *)
-Lemma res_header_nocolon_rejected :
-  let '(h, rv, used) := res_parse hconn_init res_nocolon_witness in rv = NNG_EPROTO.
-Proof. vm_compute. reflexivity. Qed.
+Lemma res_header_nocolon_rejected strict :
+  let '(h, rv, rest) := res_parse strict hconn_init res_nocolon_witness in rv = NNG_EPROTO.
+Proof. destruct strict; vm_compute; reflexivity. Qed.
 
-(* the status code is read with atoi: "200x" is taken for 200 (the code as it is) *)
+(* the status code read with atoi: "200x" was taken for 200 *)
 Definition res_200x_witness : list byte :=
   [72;84;84;80;47;49;46;49;32;50;48;48;120;32;79;75;13;10;13;10].               (* "HTTP/1.1 200x OK\r\n\r\n" *)
-Lemma res_status_200x_accepted :
-  let '(h, rv, used) := res_parse hconn_init res_200x_witness in rv = 0 /\ get_status h = 200.
+Lemma res_status_200x_pinned :
+  let '(h, rv, rest) := res_parse false hconn_init res_200x_witness in rv = 0 /\ get_status h = 200.
 Proof. vm_compute. split; reflexivity. Qed.
+Lemma res_status_200x_fixed :
+  let '(h, rv, rest) := res_parse true hconn_init res_200x_witness in rv = NNG_EPROTO.
+Proof. vm_compute. reflexivity. Qed.
